@@ -165,7 +165,17 @@ HasComp(nodes, i) ==
   IF i > Len(nodes) THEN FALSE
   ELSE (nodes[i].t = "comp") \/ ("a" \in DOMAIN nodes[i] /\ HasComp(nodes[i].a, 1)) \/ HasComp(nodes, i + 1)
 
-Prog(mode, devs) == [mode |-> mode, devs |-> devs, dyn |-> FALSE, pyctx |-> FALSE, ctx |-> Ctx, comps |-> Lib, page |-> stack[1].kids]
+\* C04: the assets of the library classes (shared Media files, a subclass pair with and without
+\* Media.extend, blank code, classes without any asset)
+NoAssets == [js |-> "", css |-> "", mjs |-> <<>>, mcss |-> <<>>, base |-> 0, ext |-> TRUE]
+AssetsOf(c) ==
+  CASE c = 1 -> [js |-> "J1", css |-> "S1", mjs |-> <<"f1.js", "shared.js">>, mcss |-> <<"a1.css">>, base |-> 0, ext |-> TRUE]
+    [] c = 2 -> [js |-> "J2", css |-> " ", mjs |-> <<"shared.js">>, mcss |-> <<>>, base |-> 1, ext |-> TRUE]
+    [] c = 3 -> [js |-> "", css |-> "S3", mjs |-> <<>>, mcss |-> <<"a3.css", "a1.css">>, base |-> 1, ext |-> FALSE]
+    [] c = 5 -> [js |-> "J5", css |-> "S5", mjs |-> <<"f5.js">>, mcss |-> <<>>, base |-> 0, ext |-> TRUE]
+    [] OTHER -> NoAssets
+LibA == [c \in 1..Len(Lib) |-> Lib[c] @@ [assets |-> AssetsOf(c)]]
+Prog(mode, devs) == [mode |-> mode, devs |-> devs, dyn |-> FALSE, pyctx |-> FALSE, ctx |-> Ctx, comps |-> LibA, page |-> stack[1].kids]
 
 \* Theorems of the reference semantics, checked on every complete page:
 \*  - evaluation never runs out of fuel and raises only the documented errors;
@@ -215,10 +225,11 @@ Opts == [format |-> "TXT", charset |-> "UTF-8", openOptions |-> <<"WRITE", "CREA
 \* the library and page context, written once (initial state)
 ExportLib ==
   n = 0 /\ Len(stack) = 1 /\ stack[1].kids = <<>> =>
-    Serialize(ToJson([comps |-> Lib, ctx |-> Ctx]) \o "\n", IOEnv.LIB, Opts).exitValue = 0
+    Serialize(ToJson([comps |-> LibA, ctx |-> Ctx]) \o "\n", IOEnv.LIB, Opts).exitValue = 0
 Export ==
   Complete /\ HasComp(stack[1].kids, 1) =>
     LET r == Run(Prog(Mode, <<>>)) IN
     Serialize(ToJson([page |-> stack[1].kids, mode |-> Mode, out |-> r.out, err |-> r.err, errs |-> r.errs,
-                      zone |-> r.zone, insts |-> r.insts, elems |-> r.elems, marks |-> r.marks]) \o "\n", IOEnv.OUT, Opts).exitValue = 0
+                      zone |-> r.zone, insts |-> r.insts, elems |-> r.elems, marks |-> r.marks,
+                      deps |-> Deps(Prog(Mode, <<>>), r.insts)]) \o "\n", IOEnv.OUT, Opts).exitValue = 0
 =============================================================================
